@@ -382,3 +382,14 @@ Definition wrong_dir_code : N := 97.
 Definition os_table {O : dataops} (dir : str) (p : program O) : os_fn O :=
   fun _ d => if str_eqb d dir then Started p else Started (mkProg [] (Exit wrong_dir_code)).
 Definition os_fail {O : dataops} : os_fn O := fun _ _ => StartErr.
+(* the same, keyed on the exact argument vector as well: given any other vector the program
+   does something else (the helper child checks the words it gets and ends with this code) *)
+Definition wrong_args_code : N := 93.
+Fixpoint strs_eqb (a b : list str) : bool :=
+  match a, b with
+  | [], [] => true
+  | x :: a', y :: b' => str_eqb x y && strs_eqb a' b'
+  | _, _ => false
+  end.
+Definition os_table_args {O : dataops} (args : list str) (dir : str) (p : program O) : os_fn O :=
+  fun a d => if strs_eqb a args then os_table dir p a d else Started (mkProg [] (Exit wrong_args_code)).
